@@ -461,13 +461,14 @@ var dpopMuts = []string{
 	"pf-sub-other", "pf-nonce-other", "pf-nonce-empty-both", "pf-chal-other-token-both", "pf-chal-mismatch", "pf-chal-number", "pf-handle-other", "pf-handle-missing",
 	"pf-name-other", "pf-name-case", "pf-garbage", "payload-notjson", "payload-emptytoken", "value-notjson", "value-no-handle", "value-clientid-bad",
 	"orders-empty", "orders-error", "tokenstore-error", "no-wire-options", "at-nonce-other", "at-chal-ws",
+	"pf-chal-prefix-both", "at-cnf-prefix", "pf-sub-prefix", "at-aud-prefix", "pf-handle-case",
 }
 
 var oidcMuts = []string{
 	"exact", "exact", "exact", "exact", "other-account-presents", "keyauth-other-token", "keyauth-nl", "keyauth-missing", "keyauth-upper", "keyauth-token-only",
 	"acmeaud-other-challenge", "acmeaud-other-authz", "acmeaud-missing", "acmeaud-slash", "signed-by-other-idp-key", "iss-other", "aud-other-client", "expired",
 	"name-other", "name-case", "name-number", "handle-other", "handle-missing", "garbage", "payload-notjson", "payload-emptytoken", "value-notjson", "value-no-domain",
-	"orders-empty", "orders-error", "tokenstore-error", "no-wire-options",
+	"orders-empty", "orders-error", "tokenstore-error", "no-wire-options", "keyauth-prefix", "keyauth-other-thumb-same-token", "acmeaud-prefix",
 }
 
 func genWire(r *c.Rng, k *Case) {
@@ -552,6 +553,27 @@ func genWire(r *c.Rng, k *Case) {
 	case "pf-chal-other-token-both": // consistent with each other, but for another challenge's token
 		t := genToken(r)
 		w.AT, w.PF = map[string]string{"chal": t}, map[string]string{"chal": t}
+	case "pf-chal-prefix-both": // a prefix of this challenge's token, consistently in both tokens
+		t := k.Token[:len(k.Token)-1]
+		w.AT, w.PF = map[string]string{"chal": t}, map[string]string{"chal": t}
+	case "at-cnf-prefix":
+		w.AT = map[string]string{"cnf": signerKid(w, 1)}
+	case "pf-sub-prefix":
+		w.PF = map[string]string{"sub": wireClientID[:len(wireClientID)-1]}
+	case "at-aud-prefix":
+		a := wireAudience(wireProv)
+		w.AT = map[string]string{"aud": a[:len(a)-1]}
+	case "pf-handle-case":
+		w.PF = map[string]string{"handle": strings.ToUpper(wireHandle)}
+	case "keyauth-prefix":
+		_, th, _ := account(w.Signer)
+		w.AT = map[string]string{"keyauth": k.Token + "." + th[:len(th)-1]}
+	case "keyauth-other-thumb-same-token":
+		_, th, _ := account(other)
+		w.AT = map[string]string{"keyauth": k.Token + "." + th}
+	case "acmeaud-prefix":
+		a := wireAudience(wireProv)
+		w.AT = map[string]string{"acme_aud": a[:len(a)-1]}
 	case "pf-chal-mismatch":
 		w.PF = map[string]string{"chal": genToken(r)}
 	case "pf-chal-number", "name-number":
@@ -620,6 +642,12 @@ func genWire(r *c.Rng, k *Case) {
 	case "acmeaud-slash":
 		w.AT = map[string]string{"acme_aud": wireAudience(wireProv) + "/"}
 	}
+}
+
+// signerKid: the signer's key id without its last n characters
+func signerKid(w *WireW, n int) string {
+	id := wirePriv[w.Signer].KeyID
+	return id[:len(id)-n]
 }
 
 func cornerWire() []*Case {
